@@ -309,7 +309,14 @@ class Facts:
         self.items.append((t, v))
         self.map[t] = v
         if t[0] == "icmp" and t[1] in ("eq", "ne") and t[3][0] == "c" and t[3][1] == 0:
-            self.zmap[t[2]] = "Z" if (t[1] == "eq") == v else "NZ"
+            z = "Z" if (t[1] == "eq") == v else "NZ"
+            self.zmap[t[2]] = z
+            # (a & b) != 0 implies a != 0 and b != 0;  (a | b) == 0 implies both zero
+            x = t[2]
+            if x[0] == "bin" and ((x[1] == "and" and z == "NZ") or (x[1] == "or" and z == "Z")):
+                for side in (x[2], x[3]):
+                    if side[0] != "c":
+                        self.add(("icmp", "ne" if z == "NZ" else "eq", side, C(0, term_bits(side) or t[3][2])), True)
 
     # -- queries ------------------------------------------------------------
     def truth(self, t, depth=0):
